@@ -5,6 +5,8 @@ mod exec;
 mod monitors;
 mod profiles;
 mod program;
+mod sysc;
+mod threads;
 mod trace;
 mod types;
 
@@ -24,6 +26,43 @@ fn main() {
             let prop = arg(&args, "--prop").expect("--prop");
             let tier = arg(&args, "--tier").unwrap_or("quick".into());
             let seed: u64 = arg(&args, "--seed").and_then(|s| s.parse().ok()).unwrap_or(1);
+            if prop == "C10" {
+                let thorough = tier == "thorough";
+                let cfg = threads::C10Config {
+                    tier: tier.clone(),
+                    seed,
+                    out: arg(&args, "--out").unwrap_or("/verif/evidence/C10.json".into()),
+                    replay_dir: arg(&args, "--replay-dir").unwrap_or("/verif/replays".into()),
+                    sequences: arg(&args, "--programs").and_then(|s| s.parse().ok()).unwrap_or(if thorough { 200_000 } else { 10_000 }),
+                    trials: arg(&args, "--trials").and_then(|s| s.parse().ok()).unwrap_or(if thorough { 3_000 } else { 150 }),
+                    stage_notes: arg(&args, "--stage-notes"),
+                };
+                let (v, inc) = threads::run_check(&cfg);
+                if v > 0 {
+                    std::process::exit(1);
+                }
+                if inc.is_some() {
+                    std::process::exit(2);
+                }
+                return;
+            }
+            if prop == "C17" {
+                let cfg = sysc::SyscConfig {
+                    tier: tier.clone(),
+                    seed,
+                    out: arg(&args, "--out").unwrap_or("/verif/evidence/C17.json".into()),
+                    replay_dir: arg(&args, "--replay-dir").unwrap_or("/verif/replays".into()),
+                    sequences: arg(&args, "--programs").and_then(|s| s.parse().ok()).unwrap_or(if tier == "thorough" { 200_000 } else { 8_000 }),
+                };
+                let (v, inc) = sysc::run_check(&cfg);
+                if v > 0 {
+                    std::process::exit(1);
+                }
+                if inc.is_some() {
+                    std::process::exit(2);
+                }
+                return;
+            }
             let (n, cap) = check::tier_budget(&prop, &tier);
             let cfg = check::Config {
                 prop: prop.clone(),
@@ -46,7 +85,7 @@ fn main() {
             }
         }
         Some("replay") => {
-            let hit = check::replay(&args[2]);
+            let hit = if args[2].contains("/C17-") { sysc::replay(&args[2]) } else if args[2].contains("/C10-") { threads::replay(&args[2]) } else { check::replay(&args[2]) };
             std::process::exit(if hit { 1 } else { 0 });
         }
         Some("survey") => survey(&args[2..]),
